@@ -127,12 +127,12 @@ fn scenarios(tier: Tier) -> Vec<(Program, usize)> {
     // run through both of them): whatever they share, a content address only ever holds whole data
     for len in [24usize, 9000] {
         for fl in [Fl::Sync, Fl::Async] {
-            for b_first in [false, true] {
+            for plan in 0u8..4 {
                 let mut a = WriteSpec::simple(Some(0), 0);
                 a.chunks = vec![len / 2];
                 let mut b = WriteSpec::simple(Some(1), 0);
                 b.chunks = vec![len / 3, len / 3];
-                let op = super::basic::two_writers(a, b, b_first, 1);
+                let op = super::basic::two_writers(a, b, plan, 1);
                 out.push((Program { keys: keys.clone(), blobs: vec![Blob::new(len, 23), Blob::new(13, 22)], steps: vec![Step { op, fl }] }, 0));
             }
         }
